@@ -71,3 +71,30 @@ package vgirpc
 //@   pathvar total int64
 //@   at call (*atomic.Int64).Load setflag total result
 //@   at call (*AccessLogHook).emit assert [stamped] has(p.record, "response_bytes") && p.record["response_bytes"] == iface(total) && arg0 == p.hook && arg1 == p.record
+
+// OnDispatchEnd: the record handed on — to the egress recorder over HTTP, to emit otherwise — has
+// every field the schema requires, each of the required type; status / error_type are the ones
+// derived from the call's error ("error" exactly when it is non-nil, an RpcError's own type);
+// method, kind, server and protocol are the dispatch's own; trace and span id are both there or
+// neither; a stream record has a string stream_id, the dispatch's own when it has one; a record
+// of a call that carried a request payload has the payload or the payload-omitted marker.
+//
+//@ func (*AccessLogHook).OnDispatchEnd
+//@   property C38
+//@   at call time.Now assert [status] (err == nil ==> status == "ok" && errType == "" && errMsg == "") && (err != nil ==> status == "error" && (typeof(err) == *RpcError ==> errType == as(err, "*RpcError").Type))
+//@   at call (*egressRecorder).queue assert [required] has(arg2, "timestamp") && typeof(arg2["timestamp"]) == string && has(arg2, "level") && typeof(arg2["level"]) == string && has(arg2, "logger") && typeof(arg2["logger"]) == string && has(arg2, "message") && typeof(arg2["message"]) == string && has(arg2, "server_id") && typeof(arg2["server_id"]) == string && has(arg2, "protocol") && typeof(arg2["protocol"]) == string && has(arg2, "protocol_hash") && typeof(arg2["protocol_hash"]) == string && has(arg2, "method") && typeof(arg2["method"]) == string && has(arg2, "method_type") && typeof(arg2["method_type"]) == string && has(arg2, "principal") && typeof(arg2["principal"]) == string && has(arg2, "auth_domain") && typeof(arg2["auth_domain"]) == string && has(arg2, "remote_addr") && typeof(arg2["remote_addr"]) == string && has(arg2, "status") && typeof(arg2["status"]) == string && has(arg2, "error_type") && typeof(arg2["error_type"]) == string && has(arg2, "authenticated") && typeof(arg2["authenticated"]) == bool && has(arg2, "duration_ms") && typeof(arg2["duration_ms"]) == float64
+//@   at call (*egressRecorder).queue assert [fixed] arg2["level"] == iface("INFO") && arg2["logger"] == iface("vgi_rpc.access") && arg2["status"] == iface(status) && arg2["error_type"] == iface(errType)
+//@   at call (*egressRecorder).queue assert [identity] arg2["method"] == iface(info.Method) && arg2["method_type"] == iface(info.MethodType) && arg2["server_id"] == iface(info.ServerID) && arg2["protocol"] == iface(info.Protocol)
+//@   at call (*egressRecorder).queue assert [tracepair] has(arg2, "trace_id") == has(arg2, "span_id")
+//@   at call (*egressRecorder).queue assert [streamid] info.MethodType == "stream" ==> has(arg2, "stream_id") && typeof(arg2["stream_id"]) == string && (info.StreamID != "" ==> arg2["stream_id"] == iface(info.StreamID))
+//@   at call (*egressRecorder).queue assert [payload] len(info.RequestData) > 0 ==> has(arg2, "request_data") || (has(arg2, "truncated") && arg2["truncated"] == iface("payload_omitted") && has(arg2, "original_request_bytes"))
+//@   at call (*egressRecorder).queue assert [errormessage] errMsg != "" ==> has(arg2, "error_message") && arg2["error_message"] == iface(errMsg)
+//@   at call (*AccessLogHook).emit assert [required] has(arg1, "timestamp") && typeof(arg1["timestamp"]) == string && has(arg1, "level") && typeof(arg1["level"]) == string && has(arg1, "logger") && typeof(arg1["logger"]) == string && has(arg1, "message") && typeof(arg1["message"]) == string && has(arg1, "server_id") && typeof(arg1["server_id"]) == string && has(arg1, "protocol") && typeof(arg1["protocol"]) == string && has(arg1, "protocol_hash") && typeof(arg1["protocol_hash"]) == string && has(arg1, "method") && typeof(arg1["method"]) == string && has(arg1, "method_type") && typeof(arg1["method_type"]) == string && has(arg1, "principal") && typeof(arg1["principal"]) == string && has(arg1, "auth_domain") && typeof(arg1["auth_domain"]) == string && has(arg1, "remote_addr") && typeof(arg1["remote_addr"]) == string && has(arg1, "status") && typeof(arg1["status"]) == string && has(arg1, "error_type") && typeof(arg1["error_type"]) == string && has(arg1, "authenticated") && typeof(arg1["authenticated"]) == bool && has(arg1, "duration_ms") && typeof(arg1["duration_ms"]) == float64
+//@   at call (*AccessLogHook).emit assert [fixed] arg1["level"] == iface("INFO") && arg1["logger"] == iface("vgi_rpc.access") && arg1["status"] == iface(status) && arg1["error_type"] == iface(errType)
+//@   at call (*AccessLogHook).emit assert [identity] arg1["method"] == iface(info.Method) && arg1["method_type"] == iface(info.MethodType) && arg1["server_id"] == iface(info.ServerID) && arg1["protocol"] == iface(info.Protocol)
+//@   at call (*AccessLogHook).emit assert [tracepair] has(arg1, "trace_id") == has(arg1, "span_id")
+//@   at call (*AccessLogHook).emit assert [streamid] info.MethodType == "stream" ==> has(arg1, "stream_id") && typeof(arg1["stream_id"]) == string && (info.StreamID != "" ==> arg1["stream_id"] == iface(info.StreamID))
+//@   at call (*AccessLogHook).emit assert [payload] len(info.RequestData) > 0 ==> has(arg1, "request_data") || (has(arg1, "truncated") && arg1["truncated"] == iface("payload_omitted") && has(arg1, "original_request_bytes"))
+//@   at call (*AccessLogHook).emit assert [errormessage] errMsg != "" ==> has(arg1, "error_message") && arg1["error_message"] == iface(errMsg)
+//@   at call (*egressRecorder).queue assert [sameowner] arg0 == rec && arg1 == h && rec != nil
+//@   at call (*AccessLogHook).emit assert [inline] arg0 == h && rec == nil
